@@ -220,3 +220,16 @@ Proof.
     cbn [fst snd filter is_mutation] in *; try (exfalso; apply Hm; reflexivity);
     destruct am; try (exfalso; apply Ha; reflexivity); exact I.
 Qed.
+
+(* every call of a faulted pass is a call of the fault-free pass on the scenario itself or on the
+   scenario as seen after the read: what the fault-free theorems say about each call carries over *)
+Lemma calls_f_incl (s : scenario) (ag am : answer) (c : call) :
+  In c (calls_f s ag am) -> In c (calls_of s) \/ In c (calls_of (seen s ag)).
+Proof.
+  unfold calls_f, reconcile_krm_f, calls_of.
+  destruct (reconcile_krm s) as [r [|g rest]] eqn:E; cbn [snd]; [intros []|].
+  destruct (get_fails ag).
+  - cbn [snd]. intros [<-|[]]. left. left. reflexivity.
+  - intros H. right.
+    destruct (reconcile_krm (seen s ag)) as [r' [|g' [|m [|x l]]]]; exact H.
+Qed.
